@@ -1,6 +1,7 @@
 import PhyVerif.Model.C14
 import PhyVerif.Spec.C14
 import PhyVerif.Lemmas.C09b
+import PhyVerif.Lemmas.C14
 /-! Proofs for the second part of C14 (unit factor in the exported files, waveform gather on the returned
 waveforms, spike depths without features, durations in ms).  Statements: `Props/C14.lean`. -/
 namespace PhyVerif.C14.Lemmas
@@ -192,6 +193,64 @@ theorem peakToTrough_eq (wfs : List Mat) (rate : Rat) (nanIdx : List Nat) (ns nc
       if nanIdx.contains c then none else some ((((iM : Int) - (im : Int) : Int) : Rat) * 1000 / rate) := by
   rw [exportPeakToTrough_getD wfs rate nanIdx c hc,
     C09.Lemmas.duration_ms_spec wfs rate ns nc hns hnc hrect c hc p iM im hp hM hm]
+
+/-! ### peak channel first (distinct positions) -/
+
+theorem l1_eq_zero (pos : List (Rat × Rat)) (a b : Nat) (h : l1 pos a b = 0) :
+    pos.getD a (0, 0) = pos.getD b (0, 0) := by
+  unfold l1 at h
+  simp only at h
+  apply Prod.ext
+  · split at h <;> split at h <;> linarith
+  · split at h <;> split at h <;> linarith
+
+/-- every row the acceptance predicate admits starts with the peak channel itself when no other channel shares the
+peak's position (the loader guarantees pairwise distinct positions, model.py:390-393) -/
+theorem nearestOK_peak_first (pos : List (Rat × Rat)) (probes : List Nat) (peak ncw : Nat) (row : List Nat)
+    (hp : peak < pos.length) (hn : 0 < ncw)
+    (hd : ∀ c, c < pos.length → c ≠ peak → pos.getD c (0, 0) ≠ pos.getD peak (0, 0))
+    (h : nearestOK pos probes peak ncw row = true) : row.head? = some peak := by
+  unfold nearestOK at h
+  simp only [Bool.and_eq_true] at h
+  obtain ⟨⟨⟨⟨⟨_, _⟩, h3⟩, h4⟩, _⟩, _⟩ := h
+  have hmem : peak ∈ (List.range pos.length).filter fun c => probes.getD c 0 == probes.getD peak 0 :=
+    List.mem_filter.2 ⟨List.mem_range.2 hp, by simp⟩
+  have hk : 0 < min ncw ((List.range pos.length).filter fun c =>
+      probes.getD c 0 == probes.getD peak 0).length := by
+    have := List.length_pos_of_mem hmem
+    omega
+  generalize hkk : min ncw ((List.range pos.length).filter fun c =>
+      probes.getD c 0 == probes.getD peak 0).length = k at h3 h4 hk
+  cases hrow : row.take k with
+  | nil =>
+    rw [hrow] at h4
+    simp at h4
+    omega
+  | cons c0 rest =>
+    rw [hrow] at h3 h4
+    have hc0 : c0 ∈ (List.range pos.length).filter fun c => probes.getD c 0 == probes.getD peak 0 := by
+      have := List.all_eq_true.1 h3 c0 (by simp)
+      simpa using this
+    have hc0lt : c0 < pos.length := List.mem_range.1 (List.mem_filter.1 hc0).1
+    have hz : l1 pos peak c0 = 0 := by simpa using h4
+    have hpos := (l1_eq_zero pos peak c0 hz).symm
+    have hc0p : c0 = peak := by
+      by_contra hne
+      exact hd c0 hc0lt hne hpos
+    cases row with
+    | nil => simp at hrow
+    | cons r0 rs =>
+      cases k with
+      | zero => omega
+      | succ k =>
+        simp only [List.take_succ_cons, List.cons.injEq] at hrow
+        simp [hrow.1, hc0p]
+
+theorem nearest_peak_first (pos : List (Rat × Rat)) (probes : List Nat) (peak ncw : Nat)
+    (hp : peak < pos.length) (hn : 0 < ncw)
+    (hd : ∀ c, c < pos.length → c ≠ peak → pos.getD c (0, 0) ≠ pos.getD peak (0, 0)) :
+    (nearestSameProbe pos probes peak ncw).head? = some peak :=
+  nearestOK_peak_first pos probes peak ncw _ hp hn hd (nearest_ok pos probes peak ncw hp)
 
 theorem exportPeakToTrough_length (wfs : List Mat) (rate : Rat) (nanIdx : List Nat) :
     (exportPeakToTrough wfs rate nanIdx).length = wfs.length := by
